@@ -185,11 +185,14 @@ def perAxisEval (es : List (Edge K)) (v : List Nat → V) : V :=
 def perAxisInterp (axes : List (Axis K)) (v : List Nat → V) (p : List K) : V :=
   perAxisEval (List.zipWith Axis.edge axes p) v
 
+/-- `per_axis_interpolator`: is every axis set to `'nearest'`? -/
+def allNearest (axes : List (Axis K)) : Bool := axes.all (fun a => a.scheme == .nearest)
+
 /-- `per_axis_interpolator` at one point: with every axis set to `'nearest'` the call is
 served by `_NearestInterpolator` (no arithmetic on the values, so integer and string data
 work), otherwise by `_PerAxisInterpolator`. -/
 def perAxisInterpolator (axes : List (Axis K)) (v : List Nat → V) (p : List K) : V :=
-  if axes.all (fun a => a.scheme == .nearest) then nearestInterp axes v p
+  if allNearest axes then nearestInterp axes v p
   else perAxisInterp axes v p
 
 /-! ### Calling conventions (`_check_interp_input`, `_Interpolator.__call__`)
@@ -321,17 +324,32 @@ def arithmeticOk : VKind → Bool
   | .strNarrow | .strWide => false
   | _ => true
 
-/-- Do the points take the value dtype (no fallback to `float`, no warning)? -/
-def pointsTakeValueDtype (vk : VKind) : Bool := isNumeric vk && castSafe vk
+inductive CastRule | safe | sameKind
+  deriving Repr, DecidableEq
+
+/-- `np.can_cast(float64, values.dtype, 'same_kind')`. -/
+def castSameKind : VKind → Bool
+  | .int => false
+  | _ => true
+
+/-- `np.can_cast(float64, values.dtype, rule)`. -/
+def canCast : CastRule → VKind → Bool
+  | .safe, vk => castSafe vk
+  | .sameKind, vk => castSameKind vk
+
+/-- A `float64` coordinate survives the cast to this dtype class unchanged. -/
+def castLossless : VKind → Bool
+  | .float64 | .complex128 | .object => true
+  | _ => false
+
+/-- Do the points take the value dtype (no fallback to `float`, no warning)?  `guard`: the cast
+is only attempted for numeric value dtypes; `rule`: the `casting=` argument.  Both are
+extracted from the source (`Gen/InterpEdges.lean`). -/
+def pointsTakeValueDtype (guard : Bool) (rule : CastRule) (vk : VKind) : Bool :=
+  (!guard || isNumeric vk) && canCast rule vk
 
 /-- Outcome of `_find_indices` on `float64` points. -/
-def findIndicesOutcome (vk : VKind) : CallOutcome :=
-  if pointsTakeValueDtype vk && !arithmeticOk vk then .typeError else .ok
-
-/-- The code BEFORE the repair of finding C15-F3 (kept to document the sensitivity): the cast
-was attempted for every value dtype, so `float64` points became strings for wide string
-values and the normalised distance raised a `TypeError`. -/
-def findIndicesOutcomeOld (vk : VKind) : CallOutcome :=
-  if castSafe vk && !arithmeticOk vk then .typeError else .ok
+def findIndicesOutcome (guard : Bool) (rule : CastRule) (vk : VKind) : CallOutcome :=
+  if pointsTakeValueDtype guard rule vk && !arithmeticOk vk then .typeError else .ok
 
 end OdlModel.Interp
